@@ -142,7 +142,12 @@ def gen(rng, kind):
     if nb and kind != "percpu" and rng.random() < 0.05:    # the map is declared in a base class
         classes["Leaf"]["maps"] = []
         classes[rng.choice(names)]["maps"] = ["m"]
-    return {"kind": kind, "classes": [[k, v] for k, v in classes.items()], "main": "Leaf", "subs": subs}
+    case = {"kind": kind, "classes": [[k, v] for k, v in classes.items()], "main": "Leaf", "subs": subs}
+    if all(csize(fmt_of(case, k)) == 0 for k in all_keys(case)):     # only size-0 variables remain visible: map of size 0
+        i, v = all_keys(case)[0]
+        owner = next(c for c in mro_names(case, instances(case)[i]) if any(w[0] == v for w in classes[c]["vars"]))
+        next(w for w in classes[owner]["vars"] if w[0] == v)[2] = "B"
+    return case
 
 
 def ancestors(classes, c):
